@@ -109,7 +109,12 @@ def handle (toks : List String) : Option String :=
     match (items.splitOn ";").mapM decItem with
     | some its =>
       let text := if opn = "1" then Spec.renderScriptOpen its else Spec.renderScript its
-      let dom := its.all fun x => Spec.instrOKb x.2.1 && Spec.choicesOKb x.1
+      -- (hypothesis `hlast` of `C01_script_roundtrip_open`: an unterminated last line that renders
+      -- to nothing is not a line at all)
+      let lastOk := opn != "1" || (match its.getLast? with
+        | some x => !(Spec.renderLine x.1 x.2.1).isEmpty
+        | none => true)
+      let dom := (its.all fun x => Spec.instrOKb x.2.1 && Spec.choicesOKb x.1) && lastOk
       encStr text ++ " " ++ (if dom then "DOM" else "NODOM") ++ " " ++ encParse (parseText text)
     | none => bad
   | ["run", text, names, queue, haltAt, vars, fuel] =>
